@@ -647,3 +647,133 @@ def r43_zone_aligned_fields(ctx):
 
 
 RULES["R43"] = r43_zone_aligned_fields
+
+
+# ------------------------------------------------------------------- R44
+def r44_epoch_delegation(ctx):
+    """Unix time is defined through the verified point arithmetic: the
+    property reads `(self - <epoch point>)` and the inverse adds a
+    Duration(seconds=n) to the epoch point; neither counts days itself."""
+    rep = ctx.rep
+    rule = "R44.epoch-delegation"
+    rep.need_anchor(rule, "epoch conversions")
+    res = ctx.res
+    tp = ctx.model.cls("TimePoint")
+    f = tp.methods.get("seconds_since_unix_epoch")
+    g = ctx.try_func("data.get_timepoint_from_seconds_since_unix_epoch")
+    if f is None or g is None:
+        raise AnalysisError("epoch conversion functions not found")
+    day_counters = {"get_days_since_1_ad", "get_days_in_year_range",
+                    "get_days_in_year", "get_ordinal_date", "iter_months_days",
+                    "get_calendar_date", "get_second_of_day"}
+    for fn, need, what in (
+            (f, {"data.TimePoint.__sub__", "data.TimePoint.__init__"},
+             "`self - TimePoint(**UNIX_EPOCH_DATE_TIME_REFERENCE_PROPERTIES)`"),
+            (g, {"data.TimePoint.__add__", "data.TimePoint.__init__",
+                 "data.Duration.__init__"},
+             "`epoch_point + Duration(seconds=n)`")):
+        rep.anchor(rule, "epoch conversions")
+        callees = res.callees(fn.qual)
+        short = {c.split(".")[-1] for c in callees}
+        own = sorted(short & day_counters)
+        uses_epoch = "UNIX_EPOCH_DATE_TIME_REFERENCE_PROPERTIES" in U(fn.node)
+        rep.check(need <= callees and not own and uses_epoch, rule,
+                  ctx.fkey(fn, None, "delegates"), fn.loc(),
+                  "%s is computed as %s" % (fn.name, what),
+                  "%s no longer delegates to %s (calls %s%s): it counts "
+                  "days itself, outside the arithmetic the other properties "
+                  "verify (year 0 / negative years are the usual casualty)"
+                  % (fn.qual, what, sorted(short)[:8],
+                     ", own day counting via %s" % own if own else ""),
+                  ("C18", "C17"))
+    # the Duration added by the inverse carries the count in seconds only
+    for n in walk_no_nested(g.node):
+        if isinstance(n, ast.Call) and U(n.func) == "Duration":
+            kws = {k.arg for k in n.keywords}
+            rep.check(kws == {"seconds"}, rule,
+                      ctx.fkey(g, None, "seconds-only"), g.loc(n),
+                      "the count is added as Duration(seconds=n)",
+                      "the second count is split into %s before it is added "
+                      "(the split must then be exact for negative and "
+                      "fractional counts)" % sorted(kws), ("C18",))
+
+
+# ------------------------------------------------------------------- R45
+def r45_strptime_partition(ctx):
+    """_parse_from_custom_regex sorts the captured *group names* into date /
+    time / zone information by comparing them with names taken from the
+    translate tables.  A table may be used for that (through its property
+    column) only if, for every group a strptime directive can capture from
+    it, the property name equals the group name."""
+    rep = ctx.rep
+    rule = "R45.strptime-partition"
+    T = tables_of(ctx)
+    f = ctx.func("parsers.TimePointParser._parse_from_custom_regex")
+    rep.need_anchor(rule, "key lists")
+    strf = T.const("STRFTIME_TRANSLATE_INFO")
+    used_props = set()
+    for v in strf.values():
+        if isinstance(v, list):
+            used_props |= {x for x in v if re.fullmatch(r"[a-z_]+", x)}
+    tables = {"get_date_translate_info": T.date_info(2),
+              "get_time_translate_info": T.time_info(),
+              "get_time_zone_translate_info": T.zone_info()}
+    for n in walk_no_nested(f.node):
+        if not (isinstance(n, ast.For) and isinstance(n.iter, ast.Call)):
+            continue
+        getter = U(n.iter.func).split(".")[-1]
+        if getter not in tables:
+            continue
+        cols = {x.slice.value for x in ast.walk(n)
+                if isinstance(x, ast.Subscript) and isinstance(
+                    x.slice, ast.Constant) and isinstance(
+                        x.slice.value, int)}
+        if not cols:
+            continue
+        rep.anchor(rule, "key lists")
+        col = sorted(cols)[0]
+        bad = []
+        for row in tables[getter]:
+            if row[3] not in used_props:
+                continue
+            groups = re.findall(r"\(\?P<(\w+)>", row[1])
+            names = {row[col]} if col != 1 else set(groups)
+            for gname in groups:
+                if gname not in names:
+                    bad.append((gname, row[col]))
+        rep.check(not bad, rule, ctx.fkey(f, None, "keys:" + getter),
+                  f.loc(n),
+                  "%s column %d names the groups strptime can capture" % (
+                      getter, col),
+                  "_parse_from_custom_regex classifies captured groups with "
+                  "column %d of %s, but the directives capture %s under "
+                  "names that differ from that column %s: those keys are "
+                  "put into the wrong bucket (a %%z offset skips the zone "
+                  "processing)" % (col, getter, sorted({b[0] for b in bad}),
+                                   sorted({b[1] for b in bad})),
+                  ("C17",))
+    # whatever is in no list must end up in the zone bucket (so that the
+    # zone processing sees time_zone_hour/minute/sign)
+    zone_else = False
+    for n in walk_no_nested(f.node):
+        if isinstance(n, ast.If) and n.orelse:
+            last = n
+            while len(last.orelse) == 1 and isinstance(last.orelse[0],
+                                                      ast.If):
+                last = last.orelse[0]
+            tail = last.orelse
+            if tail and "time_zone" in U(tail[0]) and isinstance(
+                    tail[0], ast.Assign):
+                zone_else = True
+    lists = [U(n.iter.func).split(".")[-1] for n in walk_no_nested(f.node)
+             if isinstance(n, ast.For) and isinstance(n.iter, ast.Call)]
+    if "get_time_zone_translate_info" not in lists:
+        rep.check(zone_else, rule, ctx.fkey(f, None, "zone-bucket"), f.loc(),
+                  "keys in neither the date nor the time list go to the "
+                  "zone bucket",
+                  "_parse_from_custom_regex no longer sends the remaining "
+                  "keys to the zone information that "
+                  "process_time_zone_info signs and defaults", ("C17",))
+
+
+RULES.update({"R44": r44_epoch_delegation, "R45": r45_strptime_partition})
